@@ -1307,7 +1307,7 @@ func TestVerifReplay(t *testing.T) {
 	var gen func(cur []rune, n int)
 	gen = func(cur []rune, n int) { inputs = append(inputs, string(cur)); if n == 0 { return }; for _, c := range alphabet { gen(append(cur, c), n-1) } }
 	gen(nil, %(maxlen)d)
-	inputs = append(inputs, "1 /*c*/ 2", "a /*c*/ /*d*/  b", "1\\U0001F600\\U0001F600 2", "'x' \\"y\\" 1.5 2", "a  /*c*/  b 'q''r'", "1 /** d **/ 2 /***/ 3", "a /* x **/ b */ c", "'' + \\"\\" 1", "a{{\\U00010000a}} b", "x \\"}}\\" y")
+	inputs = append(inputs, "1 /*c*/ 2", "a /*c*/ /*d*/  b", "1\\U0001F600\\U0001F600 2", "'x' \\"y\\" 1.5 2", "a  /*c*/  b 'q''r'", "1 /** d **/ 2 /***/ 3", "a /* x **/ b */ c", "'' + \\"\\" 1", "a{{\\U00010000a}} b", "x \\"}}\\" y", "{{ \\"}}\\" x }} y {{ '}}}' }}")
 	for name, mk := range mks {
 		quoteState := mk().QuoteState()
 		for _, in := range inputs {
